@@ -1641,6 +1641,8 @@ class Cell(Bucket):
 
             if app.blacklisted:
                 _LOGGER.info('App %s is blacklisted', app.name)
+                # Blacklisted apps are never placed, do not hold identity.
+                app.release_identity()
                 continue
 
             if app.final_rank == _UNPLACED_RANK:
@@ -1648,8 +1650,8 @@ class Cell(Bucket):
                     assert app.server in servers
                     assert app.has_identity()
                     servers[app.server].remove(app.name)
-                    app.release_identity()
 
+                app.release_identity()
                 continue
 
             restore = {}
@@ -1701,6 +1703,7 @@ class Cell(Bucket):
             assert app.server is None
 
             if app.schedule_once and app.evicted:
+                app.release_identity()
                 continue
 
             # Check if placement is feasible.
@@ -1708,6 +1711,7 @@ class Cell(Bucket):
                 _LOGGER.info(
                     'Placement not feasible: %s %r', app.name, app.shape()
                 )
+                app.release_identity()
                 continue
 
             if not self.put(app):
